@@ -39,7 +39,7 @@ def cases(tier):
             for ro in ((1, 2) if d > 1 else (1,)):
                 for fam in ('real', 'complex', 'markov'):
                     for rx in admissible_ranks(list(dims)):
-                        for sl in (STEPLISTS if not q else ('const2', 'vary3', 'close3', 'tiny_fast')):
+                        for sl in (STEPLISTS if not q else ('vary3', 'close3', 'tiny_fast')):
                             for h in ((0.1, 0.01) if not q else (0.1,)):
                                 yield {'kind': 'schemes', 'dims': list(dims), 'ro': ro, 'fam': fam, 'rx': rx, 'steps': sl, 'h': h}
     for cplx in (False, True):
